@@ -169,13 +169,13 @@ class Lab:
         try:
             for tid in schedule:
                 ev = s.grant(tid)
-                if ev['lock'] == 'mdib':
+                if ev['lock'] == 'mdib' and ev['op'] in ('acq', 'rel'):
                     depth += 1 if ev['op'] == 'acq' else -1
                 if depth == 0:
                     snap()
             for tid in threads:
                 s.wait_parked_or_finished(tid)
-                if tid not in s.finished:
+                if tid not in s.finished and tid not in getattr(s, 'errors', {}):
                     raise MachineryError(f'thread {tid} still has events after the schedule ended: stale program')
         finally:
             with s.cv:
@@ -183,12 +183,10 @@ class Lab:
                 s.cv.notify_all()
         for th in threads.values():
             th.join(timeout=5)
-        errs = {t: repr(e) for t, e in getattr(s, 'errors', {}).items()}
-        if errs:
-            raise MachineryError(f'operation thread raised: {errs}')
+        errs = [f'{names[t - 1]}: {e!r}'[:200] for t, e in sorted(getattr(s, 'errors', {}).items())]
         executed = [[t, e['op'], e['lock']] for t, e in s.events]
         return {'ops': list(names), 'schedule': list(schedule), 'reads': list(self.reads), 'phist': phist,
-                'wire': list(self.wire), 'executed': executed}
+                'wire': list(self.wire), 'executed': executed, 'errors': errs}
 
     def close(self):
         self.ref.s = Scheduler(record_only=True)
